@@ -46,8 +46,8 @@ def nontrivial(c):
 def cases(ctx):
     rng = ctx.rng('main')
     quick = ctx.tier == 'quick'
-    for i in range(1300 if quick else 26000):
-        spec = gen.rand_frame_spec(rng, 4, 5, dtypes=rng.choice([gen.DTYPES_BASIC, gen.DTYPES_BASIC, gen.DTYPES_ALL]),
+    for i in range(3200 if quick else 48000):
+        spec = gen.rand_frame_spec(rng, 4, 6, dtypes=rng.choice([gen.DTYPES_BASIC, gen.DTYPES_BASIC, ['int64', 'float64'], gen.DTYPES_ALL]),
                                    index_kinds=('auto', 'int', 'str'), column_kinds=('auto', 'int', 'str'), min_cols=1, run_bias=0.6)
         n, m = spec['rows'], len(spec['cols'])
         iface = INTERFACES[i % len(INTERFACES)] if quick else rng.choice(INTERFACES)
@@ -55,6 +55,22 @@ def cases(ctx):
         rk = gen.rand_key(rng, n, unique_list=True)
         ck = gen.rand_key(rng, m, unique_list=True)
         yield {'k': iface, 'spec': spec, 'route': route, 'rk': rk, 'ck': ck, 'val': rng.choice(VALUES), 'r': rng.randint(0, 10 ** 6)}
+    yield from _astype_stream(ctx, rng, 500 if quick else 6000)
+
+
+def _astype_stream(ctx, rng, count):
+    """frames with long same-dtype runs (2-D blocks) and keys addressing several columns of a block plus later
+    ones, retyped to a dtype a block already has: the skip branch of _astype_blocks with further targets"""
+    for i in range(count):
+        spec = gen.rand_frame_spec(rng, 3, 7, dtypes=['int64', 'float64', 'bool'], index_kinds=('auto',), column_kinds=('str', 'auto'),
+                                   min_cols=4, min_rows=1, run_bias=0.75, na=0.0)
+        m = len(spec['cols'])
+        ck = ['mask'] + [1 if rng.random() < 0.6 else 0 for _ in range(m)]
+        if rng.random() < 0.3:
+            ps = [j for j in range(m) if ck[1 + j]]
+            rng.shuffle(ps)
+            ck = ['list'] + ps
+        yield {'k': 'astype', 'spec': spec, 'route': 'getitem', 'rk': ['all'], 'ck': ck, 'val': 'i:7', 'r': 3 + 5 * rng.randint(0, 10 ** 5)}
 
 
 def model_lines(c):
@@ -285,7 +301,10 @@ def run_iface(ctx, c, f, ref, rpos, cpos):
         return compare_frame(res, ref, exp, exp_dtypes=['b1'] * m, exp_name=tok(res.name))
     if iface == 'astype':
         route, prk, pck, rp, cp = keys_for_route(f, c, rpos, cpos)
-        target = ['object', 'float64', 'str'][rng_r % 3]
+        target = ['object', 'float64', 'str', 'same', 'same'][rng_r % 5]
+        if target == 'same':
+            # a dtype some column already has: blocks of that dtype are skipped, later targets must still be applied
+            target = str(f.dtypes.values[(rng_r // 5) % m])
         if route == 'iloc':
             route, pck = 'getitem', label_key(c['ck'], list(f.columns), 'c')[0]
             if pck is None:
@@ -303,7 +322,7 @@ def run_iface(ctx, c, f, ref, rpos, cpos):
         res = f.astype[pck](target)
         dts = [None if j in cp else ref.dtypes[j] for j in range(m)]
         what = compare_frame(res, ref, expected_cols, exp_dtypes=dts)
-        if what is None and target != 'str':
+        if what is None and target not in ('str',) and not target.startswith(('<U', '|S', 'datetime', 'timedelta', '<M', '<m')):
             gd = [dtype_tok(d) for d in res.dtypes.values]
             for j in cp:
                 if gd[j] != dtype_tok(np.dtype(target)):
